@@ -97,7 +97,13 @@ func c13Scenario(p c13Params) *explore.Scenario {
 				s := NewServerSession(fmt.Sprintf("s%d", i), "verifuser", cat, tail)
 				ss = append(ss, s)
 				vrt.Go("pump", func() { s.Pump(32 * 1024) })
-				s.H.Write(WireCommand(fmt.Sprintf("%s %s/s%d/*.log regex:noop ", p.Mode, dir, i)))
+				if p.Mode == "map" {
+					// a dmap session: the map command, then the read command feeding it
+					s.H.Write(WireCommand("map select count($line) group by $hostname logformat generic"))
+					s.H.Write(WireCommand(fmt.Sprintf("cat %s/s%d/*.log regex:noop ", dir, i)))
+				} else {
+					s.H.Write(WireCommand(fmt.Sprintf("%s %s/s%d/*.log regex:noop ", p.Mode, dir, i)))
+				}
 				if cancelled[i] {
 					vrt.Go("cancel", func() {
 						vrt.Yield("cancel")
@@ -198,9 +204,10 @@ func c13Params_(tier string) (ps []c13Params, d int) {
 			{Mode: "cat", Limit: 1, Sessions: 3, Files: 1, Lines: 2, Cancel: []int{1}},
 			{Mode: "cat", Limit: 1, Sessions: 2, Files: 2, Lines: 1},
 			{Mode: "cat", Limit: 2, Sessions: 3, Files: 1, Lines: 1, Cancel: []int{0}},
+			{Mode: "map", Limit: 1, Sessions: 2, Files: 2, Lines: 1, Cancel: []int{1}},
 		}, 2
 	}
-	for _, mode := range []string{"cat", "tail"} {
+	for _, mode := range []string{"cat", "tail", "map"} {
 		for _, limit := range []int{1, 2} {
 			for _, sess := range []int{2, 3} {
 				for _, files := range []int{1, 2} {
@@ -230,7 +237,7 @@ func init() {
 	Register(&Check{
 		ID:    "C13",
 		Level: "model_checking",
-		Rule: "stateless exploration of all schedules within a deviation bound of 2-3 real ServerHandler sessions sharing one limiter (cat and tail, limit 1-2, " +
+		Rule: "stateless exploration of all schedules within a deviation bound of 2-3 real ServerHandler sessions sharing one limiter (cat, tail and mapreduce reads, limit 1-2, " +
 			"1-2 files per session, optional cancellation of sessions at any point); a case is one execution; distinct = distinct (scenario, observable outcome) pairs",
 		Assumptions: []string{
 			"code between two synchronisation operations is atomic (data-race freedom; checked separately by the free-running -race pass)",
